@@ -53,6 +53,12 @@ Arr(rows) == [t |-> "arr", v |-> rows]
 AnyErr  == [t |-> "anyerr"]
 Open    == [t |-> "open"]
 
+RECURSIVE ConcatRange(_, _, _)
+ConcatRange(ss, i, j) == IF i > j THEN <<>> ELSE IF i = j THEN ss[i]
+                         ELSE LET m == (i + j) \div 2 IN ConcatRange(ss, i, m) \o ConcatRange(ss, m + 1, j)
+ConcatSeqs(ss) == ConcatRange(ss, 1, Len(ss))
+ArrElems(a) == ConcatSeqs(a.v)          \* elements of an array, row-major
+
 IsNum(x)   == x.t = "num"
 IsTxt(x)   == x.t = "txt"
 IsBool(x)  == x.t = "bool"
@@ -73,9 +79,14 @@ SameVal(a, b) == a.t = b.t /\ a = b
 Lim == 40000
 SafeNum(x) == Abs(x.n) <= Lim /\ x.d <= Lim
 
-RAdd(a, b) == IF SafeNum(a) /\ SafeNum(b) THEN Rat(a.n * b.d + b.n * a.d, a.d * b.d) ELSE Open
-RSub(a, b) == IF SafeNum(a) /\ SafeNum(b) THEN Rat(a.n * b.d - b.n * a.d, a.d * b.d) ELSE Open
-RMul(a, b) == IF SafeNum(a) /\ SafeNum(b) THEN Rat(a.n * b.n, a.d * b.d) ELSE Open
+BigLim == 1000000000
+WholeSafe(a, b) == a.d = 1 /\ b.d = 1 /\ Abs(a.n) < BigLim /\ Abs(b.n) < BigLim     \* integers add without products
+RAdd(a, b) == IF WholeSafe(a, b) THEN Whole(a.n + b.n)
+              ELSE IF SafeNum(a) /\ SafeNum(b) THEN Rat(a.n * b.d + b.n * a.d, a.d * b.d) ELSE Open
+RSub(a, b) == IF WholeSafe(a, b) THEN Whole(a.n - b.n)
+              ELSE IF SafeNum(a) /\ SafeNum(b) THEN Rat(a.n * b.d - b.n * a.d, a.d * b.d) ELSE Open
+RMul(a, b) == IF a.d = 1 /\ b.d = 1 /\ (b.n = 0 \/ Abs(a.n) <= 2000000000 \div Abs(b.n)) THEN Whole(a.n * b.n)
+              ELSE IF SafeNum(a) /\ SafeNum(b) THEN Rat(a.n * b.n, a.d * b.d) ELSE Open
 RDiv(a, b) == IF SafeNum(a) /\ SafeNum(b) THEN Rat(a.n * b.d, a.d * b.n) ELSE Open   \* b.n # 0
 RNeg(a)    == [t |-> "num", n |-> -a.n, d |-> a.d]
 RLt(a, b)  == a.n * b.d < b.n * a.d          \* callers keep operands safe
